@@ -132,7 +132,8 @@ def check_graph(ctx, A, directed, terms=None):
     want = expect(A, w, directed)
     E = want["graph"]
     has = A.sum() > 0
-    W = graphs.attr_matrix(rng, A, symmetric=not directed) if has else None
+    W = graphs.attr_matrix(rng, A, symmetric=not directed,
+                           signed=True) if has else None
     paths = {}
     with warnings.catch_warnings():
         warnings.simplefilter("ignore")
@@ -324,7 +325,8 @@ def embedded_files(ctx):
             lon = np.array([float(rng.randrange(-170, 171, 5))
                             for _ in range(n)])
             has = A.sum() > 0
-            W = (graphs.attr_matrix(rng, A, symmetric=not directed)
+            W = (graphs.attr_matrix(rng, A, symmetric=not directed,
+                                    signed=True)
                  if has else None)
             want = expect(A, w, directed)
             sim = np.array([[rng.random() for _ in range(n)]
